@@ -10,7 +10,7 @@ only offered where the lexical grammar keeps the two neighbours apart by itself 
 """
 import itertools
 
-SEPS = ["", " ", ",", "\n", "\r\n", "#c\n", "\ufeff"]
+SEPS = ["", " ", ",", "\n", "\r\n", "#c\n", "\ufeff", "#c\r"]  # a comment ended by a bare CR is last (added later)
 
 _NAME_START = "_ABCDEFGHIJKLMNOPQRSTUVWXYZabcdefghijklmnopqrstuvwxyz"
 _DIGITS = "0123456789"
